@@ -248,6 +248,12 @@ fn parse_pref64(name: &str, fragment: &yaml::Yaml) -> Result<Option<Pref64>, Err
             }
         }
         if let Some(prefix) = prefix {
+            if ![32, 40, 48, 56, 64, 96].contains(&prefix.prefixlen) {
+                return Err(Error::InvalidConfig(format!(
+                    "{} prefix length must be one of 32, 40, 48, 56, 64 or 96 (RFC 8781), not {}",
+                    name, prefix.prefixlen
+                )));
+            }
             Ok(Some(Pref64 {
                 prefix: prefix.addr,
                 lifetime: lifetime.unwrap_or_else(|| std::time::Duration::from_secs(600)),
